@@ -783,3 +783,48 @@ def shared_mechanisms(run: Run, prop: str, first: int, which: list):
             run.floor(rule, 5)
         else:
             raise AnalysisError('common', f'unknown mechanism {name}')
+
+
+def uid_by_evaluation(src):
+    """{(title, column, row): uid text | 'raises <exc>'} of Cell.uid evaluated (engine F) on a few handled and unhandled cells"""
+    from ..finite import evaluator_for_class, const_av, Unknown, AbsRaise
+    ci = src.cls('Cell')
+    fields = [(st.target.id, st.value) for st in ci.node.body if isinstance(st, ast.AnnAssign) and isinstance(st.target, ast.Name)]
+    out = {}
+    for coords, handled in (((1, 2, 3), True), ((0, 0, 0), True), ((12, 27, 104), True), ((0, 5, None), True), ((3, 4, 5), False), ((0, 'B', '2'), False),
+                            (('S', 1, 2), True)):
+        ev = evaluator_for_class(ci, max_depth=6)
+        ev.classes = {'Cell': {n: m.node for n, m in ci.methods.items()}}
+        at = {}
+        vals = dict(zip(['title', 'column', 'row'], coords))
+        for n, d in fields:
+            at[n] = const_av(vals[n]) if n in vals else (ev.ev(d, {}) if d is not None else const_av(None))
+        if handled and '_handled_identifiers' in at:
+            at['_handled_identifiers'] = const_av(True)
+        cell = ev.new_obj('Cell', at)
+        try:
+            v = ev.ev(ast.parse('c.uid', mode='eval').body, {'c': cell})
+            out[(coords, handled)] = v.val if isinstance(v.val, str) else repr(v)
+        except AbsRaise as e:
+            out[(coords, handled)] = f'raises {e.exc}'
+        except Unknown as u:
+            raise AnalysisError('common', f'Cell.uid cannot be followed ({u})')
+    return out
+
+
+def check_uid(run: Run, rule: str, src):
+    """the member name of a cell: '_' + title, column, row in this order joined by '_' ('any' for a whole column), a Python
+    identifier, different for different cells; coordinates that are not numbers yet are refused"""
+    got = uid_by_evaluation(src)
+    ci = src.cls('Cell')
+    loc = loc_of(ci.module.path, ci.methods['uid'].node) if 'uid' in ci.methods else ''
+    want = {((1, 2, 3), True): '_1_2_3', ((0, 0, 0), True): '_0_0_0', ((12, 27, 104), True): '_12_27_104', ((0, 5, None), True): '_0_5_any',
+            ((3, 4, 5), False): '_3_4_5'}
+    for k, w in want.items():
+        run.check(got.get(k) == w, rule, f'Cell.uid/{k[0]}', 'uid-order',
+                  f'the member name of the cell (title, column, row) {k[0]} is {got.get(k)!r}; every consumer (executor, context, generated '
+                  f'class) relies on {w!r}: title, column, row in this order', fact=f'-> {got.get(k)!r}', loc=loc)
+    k = ((0, 'B', '2'), False)
+    run.check(str(got.get(k, '')).startswith('raises'), rule, f'Cell.uid/{k[0]} unhandled', 'uid-of-unhandled-cell',
+              f'a cell whose coordinates are still texts gets the member name {got.get(k)!r}; it must be refused (the name would not be the one '
+              f'of the cell)', fact=f'-> {got.get(k)!r}', loc=loc)
